@@ -9,14 +9,14 @@ import (
 
 // Ctx is what a rule sees.
 type Ctx struct {
-	L    *Loaded
-	m    *Model
-	e    *Engine
-	r    *Report
-	tier string
-	cg   map[*FuncUnit]map[*FuncUnit]bool
-	done map[string]bool
-	pf   map[string]prefixFreeInfo
+	L     *Loaded
+	m     *Model
+	e     *Engine
+	r     *Report
+	tier  string
+	cg    map[*FuncUnit]map[*FuncUnit]bool
+	done  map[string]bool
+	pf    map[string]prefixFreeInfo
 	reach map[string]map[*FuncUnit]bool // property → units reachable from its entry points
 }
 
